@@ -7,6 +7,7 @@ import (
 	"fmt"
 	"github.com/DataDog/datadog-traceroute/server"
 	"net"
+	"net/http"
 	"net/http/httptest"
 	"net/netip"
 	"net/url"
@@ -18,6 +19,7 @@ import (
 
 	"github.com/DataDog/datadog-traceroute/icmp"
 	"github.com/DataDog/datadog-traceroute/packets"
+	"github.com/DataDog/datadog-traceroute/publicip"
 	"github.com/DataDog/datadog-traceroute/reversedns"
 	"github.com/DataDog/datadog-traceroute/traceroute"
 
@@ -250,6 +252,10 @@ func checkC14() fw.Check {
 				}})
 			}
 			cases = append(cases, fw.Case{ID: "C14/rdns-fanout", Run: func(c *fw.Ctx) { runC14RdnsFanout(c, reps) }})
+			for k := 0; k < 3; k++ {
+				k := k
+				cases = append(cases, fw.Case{ID: fmt.Sprintf("C14/publicip-overlap/%d", k), Bubble: true, Run: func(c *fw.Ctx) { runC14PublicIPOverlap(c, k) }})
+			}
 			for k := 0; k < 4; k++ {
 				k := k
 				cases = append(cases, fw.Case{ID: fmt.Sprintf("C14/rdns-slow-batch/%d", k), Bubble: true, Run: func(c *fw.Ctx) { runC14RdnsSlowBatch(c, k) }})
@@ -442,6 +448,37 @@ func runC14RdnsSlowBatch(c *fw.Ctx, k int) {
 	}
 	c.Count("rdns_slow_batches", 1)
 	c.Nontrivial(fmt.Sprintf("rdns-slow-batch/%d", k%4))
+}
+
+// runC14PublicIPOverlap: requests that overlap on one Traceroute / Server value share its public-IP fetcher. Three lookups
+// start together on a cold cache (production fetcher around a scripted HTTP client whose first two providers fail with a
+// retryable transport error, so the back-off policy is exercised): whatever state the fetcher keeps between attempts is
+// touched by all three (race detector).
+func runC14PublicIPOverlap(c *fw.Ctx, k int) {
+	resetProcessState()
+	rt := &scriptedRT{scripts: map[string][]providerStep{}, t0: time.Now()}
+	for i, h := range providerHosts {
+		switch {
+		case i < k%3:
+			rt.scripts[h] = []providerStep{{kind: "transport"}}
+		default:
+			rt.scripts[h] = []providerStep{{kind: "valid4", ip: "192.0.2.77"}}
+		}
+	}
+	f := publicip.VerifNewPublicIPFetcher(&http.Client{Transport: rt})
+	var wg sync.WaitGroup
+	for g := 0; g < 3; g++ {
+		wg.Add(1)
+		go func() {
+			defer wg.Done()
+			if ip, err := f.GetIP(context.Background()); err != nil || !ip.Equal(net.ParseIP("192.0.2.77")) {
+				c.Violate("C18", "fetcher-wrong-address/overlap", fmt.Sprintf("overlapping lookup returned %v err=%v", ip, err), nil)
+			}
+		}()
+	}
+	wg.Wait()
+	c.Count("publicip_overlapping_lookups", 3)
+	c.Nontrivial(fmt.Sprintf("publicip-overlap/%d", k%3))
 }
 
 func runC14Request(c *fw.Ctx, i int) {
